@@ -27,7 +27,13 @@ JudgeKey(ev, ex, scr0) ==
          ELSE sync' = TRUE
 
 JudgeSl(ev) ==
-   LET exp == [ret |-> outp', len |-> Len(line'), cursor |-> cursor', buf |-> line']
+   LET hasNul == \E i \in 1..Len(line') : line'[i] = 0
+       exp == [ret |-> outp', len |-> Len(line'), cursor |-> cursor', buf |-> line',
+               \* the read-only accessors: right part of the line, its size, cursor-at-end test, comparison with a C string
+               rsize |-> Len(line') - cursor', inright |-> IF Len(line') = cursor' THEN 1 ELSE 0,
+               rpart |-> SubSeq(line', cursor' + 1, Len(line')),
+               eq_self |-> IF hasNul THEN 0 ELSE 1, eq_other |-> 0]
+              @@ (IF kind' = "sl" THEN [avail |-> cap' - Len(line'), empty |-> IF line' = <<>> THEN 1 ELSE 0, size |-> Len(line')] ELSE <<>>)
        mm == Mismatch(ev, exp) \cup (IF kind' = "sl" /\ (ev.gl # Guard \/ ev.gr # Guard) THEN {"guard"} ELSE {})
    IN /\ UNCHANGED scr
       /\ IF mm # {} THEN Flag(l, SetToSeq(mm), exp) /\ sync' = FALSE ELSE sync' = TRUE
